@@ -116,7 +116,10 @@ class Consume(SymRule):
         for c in cons_of(op, lv, rv):
             ts = ts | frozenset([('c', c)])
         # leaving the loop through its own condition: only with the remainder at zero
-        if node.stmt is self.loop and not label and self.sym is not None:
+        nxt = [m for m, l_ in node.succ if bool(l_) == bool(label)]
+        # with a short-circuit condition (a || b) the false edge of `a` leads to `b`, not out of the loop
+        still_cond = any(m.k == 'branch' and m.stmt is self.loop for m in nxt)
+        if node.stmt is self.loop and not label and self.sym is not None and not still_cond:
             ts = ts - frozenset(['iter'])
             env, _ = self.env_of(ts)
             cur = env.get(self.rem_decl)
